@@ -1,4 +1,5 @@
 import QuantemModel.Model.SaveFs
+import QuantemModel.Model.SaveFront
 /-!
 C08 — failed saves leave no loadable partial object; write-once never overwrites; no other
 path is altered.  Theorems about Model/SaveFs.lean, for every fault position, step count,
@@ -484,6 +485,229 @@ theorem saves_history_never_partial (T : String) (ks : List Call) (fs : Fs) (hu 
   · simp
   · simp
 
+/-! ### no leftover: the staging path is gone after every call, whatever happens -/
+
+/-- any step list whose last step is the `os.replace` of `_install`, any fault position -/
+theorem run_ends_replace_staged_gone (c : Cfg) (l : List Step) : ∀ (fs : Fs) (fault : Option Nat), Uniq fs →
+    fsGet (run c fs (l ++ [Step.replace]) fault).1 c.staged = .none := by
+  have hrep : ∀ fs : Fs, Uniq fs → fsGet (exec c fs .replace) c.staged = .none := by
+    intro fs hu
+    simp only [exec]
+    split
+    · exact fsGet_fsErase_same _ _ (uniq_fsSet _ _ _ hu)
+    · assumption
+  induction l with
+  | nil =>
+    intro fs fault hu
+    cases fault with
+    | none => simpa [run] using hrep fs hu
+    | some k =>
+      cases k with
+      | zero => simpa [run, SaveFs.discard] using fsGet_fsErase_same _ _ hu
+      | succ k => cases k <;> simpa [run] using hrep fs hu
+  | cons s rest ih =>
+    intro fs fault hu
+    cases fault with
+    | none => simp only [List.cons_append, run]; exact ih _ _ (uniq_exec c fs s hu)
+    | some k =>
+      cases k with
+      | zero => simpa [run, SaveFs.discard] using fsGet_fsErase_same _ _ hu
+      | succ k => simp only [List.cons_append, run]; exact ih _ _ (uniq_exec c fs s hu)
+
+/-- **no save, successful or not, leaves its staging path behind**: for every store, number of
+writes, pre-state and fault position (also a fault in `_install`, also one that never strikes) -/
+theorem staged_gone (c : Cfg) (fs : Fs) (hu : Uniq fs) (zip : Bool) (nTmp nWrites : Nat) (targetExists : Bool)
+    (fault : Option Nat) :
+    fsGet (run c fs (steps zip nTmp nWrites targetExists) fault).1 c.staged = .none := by
+  have : steps zip nTmp nWrites targetExists =
+      (stagePart zip nTmp nWrites ++ (if targetExists then [Step.removeOld] else [])) ++ [Step.replace] := by
+    simp [steps, installPart, List.append_assoc]
+  rw [this]
+  exact run_ends_replace_staged_gone c _ fs fault hu
+
+/-- **write-once, as an equation on the whole filesystem**: a call with mode ≠ 'o' onto an
+existing target changes NOTHING (not the target, not any other path) and does not return normally -/
+theorem write_once_fs_unchanged (k : Call) (fs : Fs) (hm : k.modeO = false)
+    (hex : (fsGet fs k.cfg.target).isSome = true) : k.apply fs = fs ∧ k.succeeded fs = false := by
+  unfold Call.apply Call.succeeded Call.outcome save
+  cases hl : k.levelOk <;> simp [hm, hex]
+
+/-- a call is rejected before any effect, or it is the run of its step list -/
+theorem apply_cases (k : Call) (fs : Fs) :
+    k.apply fs = fs ∨
+      k.apply fs = (run k.cfg fs (steps k.zip k.nTmp k.nWrites (fsGet fs k.cfg.target).isSome) k.fault).1 := by
+  unfold Call.apply Call.outcome save
+  by_cases h1 : (!k.levelOk) = true
+  · left; simp [h1]
+  · by_cases h2 : ((fsGet fs k.cfg.target).isSome && !k.modeO) = true
+    · left; simp [h1, h2]
+    · by_cases h3 : (!k.zip && k.dirHasExt) = true
+      · left; simp [h1, h2, h3]
+      · right; simp [h1, h2, h3]
+
+/-- one call, any options, any fault: a path that is neither its target nor its staging path is untouched -/
+theorem call_other (k : Call) (fs : Fs) (q : String) (h1 : q ≠ k.cfg.target) (h2 : q ≠ k.cfg.staged) :
+    fsGet (k.apply fs) q = fsGet fs q := by
+  rcases apply_cases k fs with h | h <;> rw [h]
+  exact others_untouched k.cfg _ fs k.fault q h1 h2
+
+/-- **no save alters any path other than its target — over histories onto ANY targets**: after any
+sequence of calls (different targets, stores, modes, rejected calls, faults anywhere) a path that
+was never the target or the staging path of a call is what it was -/
+theorem history_others_untouched (ks : List Call) : ∀ (fs : Fs) (q : String),
+    (∀ k ∈ ks, q ≠ k.cfg.target ∧ q ≠ k.cfg.staged) → fsGet (runCalls fs ks) q = fsGet fs q := by
+  induction ks with
+  | nil => intro fs q _; rfl
+  | cons k rest ih =>
+    intro fs q h
+    have hk := h k (by simp)
+    have : runCalls fs (k :: rest) = runCalls (k.apply fs) rest := by simp [runCalls]
+    rw [this, ih _ _ (fun k' hk' => h k' (by simp [hk'])), call_other k fs q hk.1 hk.2]
+
+theorem uniq_apply (k : Call) (fs : Fs) (hu : Uniq fs) : Uniq (k.apply fs) := by
+  rcases apply_cases k fs with h | h <;> rw [h]
+  · exact hu
+  · exact uniq_run _ _ _ _ hu
+
+/-- **no save creates any path other than its target — over histories**: a path that is absent and
+is never the TARGET of a call (it may be the staging path of any number of them) is still absent
+after any sequence of calls with any faults: nothing is ever left behind -/
+theorem history_no_leftover (ks : List Call) : ∀ (fs : Fs) (q : String), Uniq fs →
+    (∀ k ∈ ks, q ≠ k.cfg.target) → fsGet fs q = .none → fsGet (runCalls fs ks) q = .none := by
+  induction ks with
+  | nil => intro fs q _ _ h; exact h
+  | cons k rest ih =>
+    intro fs q hu h h0
+    have hk := h k (by simp)
+    have hrc : runCalls fs (k :: rest) = runCalls (k.apply fs) rest := by simp [runCalls]
+    rw [hrc]
+    refine ih _ _ (uniq_apply k fs hu) (fun k' hk' => h k' (by simp [hk'])) ?_
+    by_cases hs : q = k.cfg.staged
+    · subst hs
+      rcases apply_cases k fs with h | h <;> rw [h]
+      · exact h0
+      · exact staged_gone k.cfg fs hu _ _ _ _ _
+    · rw [call_other k fs q hk hs]; exact h0
+
+/-! ### the front end of `save`: validation, store inference, suffix, write-once check -/
+open QuantemModel.SaveFront
+
+/-- **write-once at the API**: whatever the spelling of the path, the store argument (also
+"auto", also an unknown one), the compression level and the mode string — every mode other than
+"o" — a call whose RESOLVED target exists raises before any effect -/
+theorem front_write_once (path : P) (mode store : String) (level : Option Int) (ex : P → Bool)
+    (hm : mode ≠ "o") (hex : ex (targetOf path store) = true) :
+    ∃ e, front path mode store level ex = .error e := by
+  unfold front
+  by_cases hl : levelOk level = false
+  · exact ⟨.level, by simp [hl]⟩
+  · refine ⟨.exists_, ?_⟩
+    simp only [hl]
+    have : ex (resolvePath path (resolveStore path store)) = true := hex
+    simp [this, hm]
+
+/-- exactly when a call gets past the front end, and what it then names -/
+theorem front_ok_iff (path : P) (mode store : String) (level : Option Int) (ex : P → Bool) (r : Resolved) :
+    front path mode store level ex = .ok r ↔
+      (levelOk level = true ∧ (ex (targetOf path store) = true → mode = "o") ∧
+        (resolveStore path store = "zip" ∨ (resolveStore path store = "dir" ∧ hasExt (targetOf path store) = false)) ∧
+        { target := targetOf path store, zip := decide (resolveStore path store = "zip") } = r) := by
+  unfold front targetOf
+  dsimp only
+  generalize resolveStore path store = s1
+  generalize resolvePath path s1 = p1
+  cases hl : levelOk level
+  · simp
+  · by_cases he : ex p1 = true <;> by_cases hmo : mode = "o" <;> by_cases hz : s1 = "zip" <;>
+      by_cases hd : s1 = "dir" <;> by_cases hx : hasExt p1 = true <;> simp_all
+
+/-- the target is the path as given, or (zip store, no `.zip` suffix yet) the path with `.zip`
+appended — and that is a DIFFERENT path from the one given -/
+theorem targetOf_cases (path : P) (store : String) :
+    targetOf path store = path ∨
+      (targetOf path store = path ++ zipExt ∧ endsZip path = false ∧ targetOf path store ≠ path) := by
+  unfold targetOf resolvePath
+  by_cases h : resolveStore path store = "zip" ∧ endsZip path = false
+  · right
+    simp only [h, and_self, if_true, true_and]
+    intro heq
+    have := congrArg List.length heq
+    simp [zipExt] at this
+  · left; simp [h]
+
+/-- a zip target always carries the `.zip` suffix -/
+theorem front_zip_suffix (path : P) (mode store : String) (level : Option Int) (ex : P → Bool) (r : Resolved)
+    (h : front path mode store level ex = .ok r) (hz : r.zip = true) : endsZip r.target = true := by
+  obtain ⟨_, _, _, hr⟩ := (front_ok_iff path mode store level ex r).1 h
+  subst hr
+  simp only [decide_eq_true_eq] at hz
+  unfold targetOf resolvePath
+  by_cases he : endsZip path = false
+  · simp only [hz, he, and_self, if_true]
+    unfold endsZip
+    exact List.isSuffixOf_iff_suffix.2 (List.suffix_append _ _)
+  · simp only [hz, he]
+    simpa using he
+
+/-- a rejected call has no effect at all; an accepted one is the protocol of `SaveFs.save` on the resolved target -/
+theorem saveFull_eq (name : P → String) (k : FullCall) (fs : Fs) :
+    (∀ e, front k.path k.mode k.store k.level (fun p => (fsGet fs (name p)).isSome) = .error e →
+      applyFull name fs k = fs) ∧
+    (∀ r, front k.path k.mode k.store k.level (fun p => (fsGet fs (name p)).isSome) = .ok r →
+      applyFull name fs k =
+        (run { target := name r.target, staged := k.staged, id := k.id } fs
+          (steps r.zip k.nTmp k.nWrites (fsGet fs (name r.target)).isSome) k.fault).1) := by
+  constructor
+  · intro e he; simp [applyFull, saveFull, he]
+  · intro r hr; simp [applyFull, saveFull, hr]
+
+/-- **one complete call, any arguments, any fault: only the RESOLVED target can change** -/
+theorem saveFull_others_untouched (name : P → String) (k : FullCall) (fs : Fs) (q : String)
+    (h1 : q ≠ name (targetOf k.path k.store)) (h2 : q ≠ k.staged) :
+    fsGet (applyFull name fs k) q = fsGet fs q := by
+  cases hf : front k.path k.mode k.store k.level (fun p => (fsGet fs (name p)).isSome) with
+  | error e => rw [(saveFull_eq name k fs).1 e hf]
+  | ok r =>
+    rw [(saveFull_eq name k fs).2 r hf]
+    obtain ⟨_, _, _, hr⟩ := (front_ok_iff _ _ _ _ _ r).1 hf
+    subst hr
+    exact others_untouched _ _ fs k.fault q h1 h2
+
+/-- **`save("run", store="zip")` writes `run.zip`; whatever lives at `run` is another path and is
+never altered** (for every injective naming of paths, any mode, level, fault) -/
+theorem saveFull_stem_untouched (name : P → String) (hinj : ∀ a b, name a = name b → a = b)
+    (k : FullCall) (fs : Fs) (hne : targetOf k.path k.store ≠ k.path) (hs : name k.path ≠ k.staged) :
+    fsGet (applyFull name fs k) (name k.path) = fsGet fs (name k.path) :=
+  saveFull_others_untouched name k fs _ (fun h => hne (hinj _ _ h).symm) hs
+
+/-- **write-once at the API, on the filesystem**: mode ≠ "o" and the resolved target exists ⇒ the
+filesystem after the call IS the filesystem before it -/
+theorem saveFull_write_once (name : P → String) (k : FullCall) (fs : Fs) (hm : k.mode ≠ "o")
+    (hex : (fsGet fs (name (targetOf k.path k.store))).isSome = true) : applyFull name fs k = fs := by
+  obtain ⟨e, he⟩ := front_write_once k.path k.mode k.store k.level (fun p => (fsGet fs (name p)).isSome) hm hex
+  exact (saveFull_eq name k fs).1 e he
+
+/-- **the main statement for a complete call**: afterwards the resolved target is what it was,
+absent, or the complete new object; and no staging path is left -/
+theorem saveFull_no_partial (name : P → String) (k : FullCall) (fs : Fs) (hu : Uniq fs)
+    (hne : name (targetOf k.path k.store) ≠ k.staged) :
+    let T := name (targetOf k.path k.store)
+    (fsGet (applyFull name fs k) T = fsGet fs T ∨ fsGet (applyFull name fs k) T = .none ∨
+      fsGet (applyFull name fs k) T = some (.complete k.id)) ∧
+    (fsGet fs k.staged = .none → fsGet (applyFull name fs k) k.staged = .none) := by
+  intro T
+  cases hf : front k.path k.mode k.store k.level (fun p => (fsGet fs (name p)).isSome) with
+  | error e =>
+    rw [(saveFull_eq name k fs).1 e hf]
+    exact ⟨Or.inl rfl, fun h => h⟩
+  | ok r =>
+    rw [(saveFull_eq name k fs).2 r hf]
+    obtain ⟨_, _, _, hr⟩ := (front_ok_iff _ _ _ _ _ r).1 hf
+    subst hr
+    refine ⟨?_, fun _ => ?_⟩
+    · exact (no_partial { target := T, staged := k.staged, id := k.id } hne fs hu _ k.nTmp k.nWrites k.fault).1
+    · exact staged_gone { target := T, staged := k.staged, id := k.id } fs hu _ _ _ _ _
+
 /-! ### non-vacuity -/
 private def c0 : Cfg := { target := "out.zip", staged := "out.zip.tmp-1", id := 7 }
 private def fs0 : Fs := [("sibling", .foreign 1), ("out.zip", .complete 3)]
@@ -505,5 +729,38 @@ example : runCalls [("sibling", .foreign 1)] (hist.take 3) = [("sibling", .forei
 example : runCalls [("sibling", .foreign 1)] hist = [("sibling", .foreign 1), ("out.zip", .complete 4)] := by decide
 example : succeededIds [("sibling", .foreign 1)] hist = [2, 4] := by decide
 example : ∀ k ∈ hist, k.cfg.target = "out.zip" ∧ k.cfg.staged ≠ "out.zip" := by decide
+
+
+/-! non-vacuity of the front-end theorems, the no-leftover theorems and the multi-target histories -/
+private def pObj : P := ['o', 'b', 'j']
+private def pObjZip : P := ['o', 'b', 'j', '.', 'z', 'i', 'p']
+private def pAB : P := ['d', '.', 'x', '/', 'a', '.', 'b']
+example : front pObj "w" "zip" (some 4) (fun _ => false) = .ok { target := pObjZip, zip := true } := by decide
+example : front pObj "x" "zip" (some 4) (fun p => p == pObjZip) = .error .exists_ := by decide
+example : front pObjZip "o" "auto" .none (fun _ => true) = .ok { target := pObjZip, zip := true } := by decide
+example : front pAB "o" "dir" .none (fun _ => true) = .error .dirExt := by decide
+example : front pAB "w" "dir" .none (fun _ => true) = .error .exists_ := by decide
+example : front pObj "o" "hdf5" (some 9) (fun _ => false) = .error .store := by decide
+example : front pObj "w" "hdf5" (some 10) (fun _ => true) = .error .level := by decide
+example : front pObj "o" "dir" (some (-1)) (fun _ => false) = .error .level := by decide
+example : hasExt ['.', 'h', 'i', 'd'] = false ∧ hasExt ['o', '.'] = true ∧ hasExt ['q', '.', 'x', '/', 'o'] = false ∧
+    hasExt ['.', '.'] = false ∧ hasExt ['.', 'h', '.', 'z'] = true := by decide
+example : targetOf pObj "zip" ≠ pObj ∧ targetOf pObj "auto" = pObj ∧ targetOf pObjZip "zip" = pObjZip := by decide
+private def nm (p : P) : String := if p = pObj then "obj" else if p = pObjZip then "obj.zip" else "?"
+private def kFull (fault : Option Nat) : FullCall :=
+  { path := pObj, mode := "w", store := "zip", level := some 4, id := 7, staged := "S", nTmp := 2, nWrites := 3, fault := fault }
+/-- `save("obj", store="zip")` next to a directory `obj`, fault in the zip assembly: nothing changes, nothing is left -/
+example : applyFull nm [("obj", .complete 3)] (kFull (some 6)) = [("obj", .complete 3)] := by decide
+example : applyFull nm [("obj", .complete 3)] (kFull .none) = [("obj", .complete 3), ("obj.zip", .complete 7)] := by decide
+example : applyFull nm [("obj.zip", .foreign 4)] (kFull .none) = [("obj.zip", .foreign 4)] := by decide
+example : (run c0 fs0 (steps true 3 4 true) (some 9)).1 = fs0 := by decide      -- fault at removeOld: staging file discarded
+/-- a history onto two targets with a rejected call (bad level) and faults: the path "S2" (a staging path only) stays absent -/
+private def mkCall2 (t : String) (id : Nat) (modeO levelOk : Bool) (fault : Option Nat) : Call :=
+  { cfg := { target := t, staged := "S" ++ toString id, id := id }, modeO := modeO, levelOk := levelOk,
+    dirHasExt := false, zip := false, nTmp := 0, nWrites := 2, fault := fault }
+private def hist2 : List Call := [mkCall2 "a" 1 false true .none, mkCall2 "b" 2 true true (some 2), mkCall2 "a" 3 true false .none,
+  mkCall2 "a" 4 true true (some 4), mkCall2 "b" 5 false true .none]
+example : runCalls [("sibling", .foreign 1)] hist2 = [("sibling", .foreign 1), ("a", .complete 1), ("b", .complete 5)] := by decide
+example : ∀ k ∈ hist2, "S2" ≠ k.cfg.target := by decide
 
 end QuantemModel.Props.C08
